@@ -687,6 +687,9 @@ func runC10(c *kit.Ctx) {
 		fmt.Sprintf("fixed header offsets %v widths %v on both sides", wOff, wWid), fmt.Sprintf("writer lays the fixed header out at offsets %v widths %v, reader reads offsets %v widths %v", wOff, wWid, rOff, rWid))
 
 	// ---- R5 ---------------------------------------------------------------
+	// cells handed to callers are sub-slices of the response buffer: it is never recycled under them
+	noResponseBufferRecycling(c)
+
 	c.StartRule("R5", "MaxTimestamp means 'latest' in both encodings under the same condition", 2)
 	maxTS := func(v ssa.Value) bool {
 		k, ok := v.(*ssa.Const)
